@@ -99,4 +99,29 @@ def genCal (arms : Arms) (maps : List (String × String)) (run : Nat) : Sel :=
 def genMap {τ : Type} [BEq τ] (tables : List (String × τ)) (arms : Arms) (h : History) (run : Nat) : Sel :=
   resolveMap tables (contentsAlong tables arms h) (dispatch arms run)
 
+/-! ### The documented board swap of run 10418 (detector/CHANGELOG.md, release 0.5.1)
+
+"Updated PWB mapping to include boards swapped from run 10418 onwards": (column, row, old board,
+new board). -/
+def pwbSwaps10418 : List (Nat × Nat × String × String) := [
+  (2, 0, "46", "90"), (2, 3, "77", "85"), (4, 0, "44", "89"), (4, 3, "78", "87"),
+  (4, 6, "45", "84"), (4, 7, "15", "91"), (5, 7, "05", "81"), (6, 2, "06", "44")]
+
+/-- The layout table (`table[column][row]` = board name) a run number selects. -/
+def layoutAt (run : Nat) : Option (List (List String)) :=
+  match dispatch pwbArms run with
+  | some (.table i) => pwbTables[i]?.map (·.2)
+  | _ => none
+
+/-- `old` with the documented replacements applied; `none` if a position does not hold the
+documented old board. -/
+def applySwaps (old : List (List String)) (swaps : List (Nat × Nat × String × String)) :
+    Option (List (List String)) :=
+  swaps.foldl (fun acc sw => match acc with
+    | none => none
+    | some t => match t[sw.1]? with
+      | none => none
+      | some col => if col[sw.2.1]? = some sw.2.2.1 then some (t.set sw.1 (col.set sw.2.1 sw.2.2.2)) else none)
+    (some old)
+
 end AlphaG.Spec
